@@ -294,6 +294,12 @@ func checkSites(p *Program, r *Result, sites []Site, prop string) {
 				continue
 			}
 		}
+		if got != want {
+			// a helper that gained an error result (streamKey returning (key, error) instead of
+			// panicking): its first result is what the table calls its result, and the test of
+			// its error is a refusal only where the helper itself failed
+			got = p.dropAddedErrorResults(got, strings.HasSuffix(s.Key, ".guards") || impliedGuards[s.Key] != nil)
+		}
 		if got == want || recipeEquivalent(s.Key, got, want) {
 			r.OK(sub, "recipe:"+s.Key, pos, "", Witness{Kind: "term", Pos: pos, Text: got})
 		} else {
@@ -420,7 +426,8 @@ func copiesAsConcat(s string) string {
 // impliedGuards: refusals that follow from the age v1 format for every file the specification
 // allows, so that making them explicit (earlier) changes nothing for valid input.
 var impliedGuards = map[string]map[string]bool{
-	"ScryptIdentity.unwrap.guards":  {`len(Field(P1.Body)) == 32`: true},
+	// SetMaxWorkFactor refuses values above 30, so `<= maxWorkFactor` already says `<= 30`
+	"ScryptIdentity.unwrap.guards":  {`len(Field(P1.Body)) == 32`: true, `strconv.Atoi(Elem(Field(P1.Args), 1)).0 <= 30`: true},
 	"X25519Identity.unwrap.guards":  {`len(Field(P1.Body)) == 32`: true},
 	"Ed25519Identity.unwrap.guards": {`len(Field(P1.Body)) == 32`: true},
 	// native keys are 32 bytes (the constructors refuse any other length themselves)
@@ -478,4 +485,86 @@ func stateOnlyGuard(g string) bool {
 // and the error looked at, elsewhere (a constructor caching the tweak).
 func neverFailingGuard(g string) bool {
 	return strings.HasPrefix(g, "io.ReadFull(hkdf.New(") && strings.HasSuffix(g, ",32)).1 == nil")
+}
+
+// errorAddedFuncs: module functions (short names as they appear in recipes) whose pinned
+// signature had results (T...) and whose current signature is (T..., error).
+func (p *Program) errorAddedFuncs() []string {
+	ks := loadShapes()
+	var out []string
+	for _, fn := range p.Funcs {
+		if fn.Parent() != nil || fn.Signature.Recv() != nil {
+			continue
+		}
+		pinned, ok := ks.Funcs[fn.String()]
+		if !ok {
+			continue
+		}
+		cur := sigShape(fn.Signature)
+		if cur == pinned || !strings.HasSuffix(cur, ", error)") {
+			continue
+		}
+		if strings.TrimSuffix(cur, ", error)")+")" == pinned {
+			out = append(out, short(fn.String()))
+		}
+	}
+	return out
+}
+
+// dropAddedErrorResults rewrites `f(args).0` to `f(args)` for those functions and, in guard
+// sets, removes the guard `f(args).1 == nil`.
+func (p *Program) dropAddedErrorResults(got string, guards bool) string {
+	fs := p.errorAddedFuncs()
+	if len(fs) == 0 {
+		return got
+	}
+	closing := func(s string, open int) int {
+		d := 0
+		for i := open; i < len(s); i++ {
+			switch s[i] {
+			case '(':
+				d++
+			case ')':
+				d--
+				if d == 0 {
+					return i
+				}
+			}
+		}
+		return -1
+	}
+	if guards {
+		var keep []string
+		for _, g := range strings.Split(got, " ; ") {
+			drop := false
+			for _, f := range fs {
+				if strings.HasPrefix(g, f+"(") && strings.HasSuffix(g, ").1 == nil") && closing(g, len(f)) == len(g)-len(").1 == nil") {
+					drop = true
+				}
+			}
+			if !drop {
+				keep = append(keep, g)
+			}
+		}
+		got = strings.Join(keep, " ; ")
+	}
+	for _, f := range fs {
+		from := 0
+		for {
+			i := strings.Index(got[from:], f+"(")
+			if i < 0 {
+				break
+			}
+			i += from
+			j := closing(got, i+len(f))
+			if j < 0 {
+				break
+			}
+			if strings.HasPrefix(got[j+1:], ".0") {
+				got = got[:j+1] + got[j+3:]
+			}
+			from = i + len(f)
+		}
+	}
+	return got
 }
